@@ -7,6 +7,8 @@ import (
 
 	sdkmath "cosmossdk.io/math"
 	storetypes "cosmossdk.io/store/types"
+	codectypes "github.com/cosmos/cosmos-sdk/codec/types"
+	"github.com/cosmos/cosmos-sdk/crypto/keys/ed25519"
 	sdk "github.com/cosmos/cosmos-sdk/types"
 	stakingtypes "github.com/cosmos/cosmos-sdk/x/staking/types"
 
@@ -54,8 +56,23 @@ func (s *Staking) Find(addr sdk.ValAddress) *StakingVal { return s.find(addr) }
 
 func (s *Staking) fault(label string) bool { return s.Faults && sym.Fault(label) }
 
+// ConsPubKey returns the validator's (fixed, derived) consensus public key.
+func (v *StakingVal) ConsPubKey() *ed25519.PubKey {
+	key := make([]byte, 32)
+	copy(key, v.Addr)
+	return &ed25519.PubKey{Key: key}
+}
+
+// ConsAddr returns the consensus address derived from ConsPubKey.
+func (v *StakingVal) ConsAddr() sdk.ConsAddress { return sdk.ConsAddress(v.ConsPubKey().Address()) }
+
 func (s *Staking) toSDK(v *StakingVal) stakingtypes.Validator {
+	pkAny, err := codectypes.NewAnyWithValue(v.ConsPubKey())
+	if err != nil {
+		panic(err)
+	}
 	return stakingtypes.Validator{
+		ConsensusPubkey: pkAny,
 		OperatorAddress: v.Addr.String(),
 		Jailed:          v.Jailed,
 		Status:          v.Status,
@@ -86,7 +103,7 @@ func (s *Staking) Validator(ctx context.Context, addr sdk.ValAddress) (stakingty
 
 func (s *Staking) ValidatorByConsAddr(ctx context.Context, cons sdk.ConsAddress) (stakingtypes.ValidatorI, error) {
 	for _, v := range s.Vals {
-		if sdk.ConsAddress(v.Addr).Equals(cons) {
+		if v.ConsAddr().Equals(cons) {
 			return s.toSDK(v), nil
 		}
 	}
@@ -166,7 +183,7 @@ func (s *Staking) Jail(ctx context.Context, consAddr sdk.ConsAddress) error {
 	}
 	s.JailCalls = append(s.JailCalls, string(consAddr))
 	for _, v := range s.Vals {
-		if sdk.ConsAddress(v.Addr).Equals(consAddr) || string(v.ConsKey) == string(consAddr) {
+		if v.ConsAddr().Equals(consAddr) {
 			v.Jailed = true
 		}
 	}
